@@ -388,7 +388,303 @@ def check_C10(tier, seed):
     return res.finish()
 
 
-CHECKS = {"C10": check_C10, "C20": check_C20, "C08": check_C08, "C09": check_C09, "C18": check_C18, "C04": check_C04, "C11": check_C11, "C01": check_C01, "C02": check_C02, "C16": check_C16, "C03": check_C03, "C12": check_C12, "C13": check_C13,
+def gen_thread_sessions(rng, nz):
+    for i in range(nz):
+        k = i % 3
+        if k == 0:
+            z = gens.gen_table_zone(rng, nmax=12)
+            yield from gens.gen_zone_session(rng, z, nprobe=25, do_find=True, do_findn=True)
+        elif k == 1:
+            yield from gens.gen_rule_zone_session(rng, gens.corpus_rule(i), with_table=(i % 2 == 0), do_find=True, do_findn=True, nprobe=25)
+        else:
+            rel = rng.choice(gens.INTERESTING_FILES)
+            ev, data = gens.corpus_event(rel)
+            yield ev
+            times, _ = gens.parse_tzif_times(data)
+            for t in rng.sample(times, min(len(times), 12)):
+                yield {"op": "lookup", "a": {"u": C.W(t + rng.choice([-1, 0, 1])), "via": rng.choice(["owned", "ref"])}}
+                yield {"op": "find", "a": gens.fields_of_local(t + rng.choice([-3600, 0, 3600]), 0)}
+        for s in rng.sample(["EST5EDT,M3.2.0,M11.1.0", "CET-1CEST,M3.5.0,M10.5.0/3", "UTC0", "<-03>3", "AAA-1", "BBB-2", "Europe/Paris", "nonexistent/zone", ":UTC", "localtime"], 4):
+            yield {"op": "posixtz", "a": {"s": C.B(s)}}
+        yield {"op": "local", "a": {}}
+        yield {"op": "project", "a": {"t": C.W(rng.randint(-2**40, 2**40)), "ns": 5, "type": gens.rand_type(rng), "via": "dt"}}
+
+
+def check_C15(tier, seed):
+    import scan, subprocess
+    res = Result("C15", tier, seed, "other")
+    binary = need_binary(res)
+    rng = random.Random(seed * 7919 + 15)
+    q = tier == "quick"
+    # (1) the model: all interleavings of the faithful library give sequential results; with a shared cell TLC must find the torn read
+    res.add_mc(run_mc("Threads", dict(NThreads=3, Calls=2 if q else 3, SharedCache="FALSE"), workers=8, timeout=3000))
+    try:
+        run_mc("Threads", dict(NThreads=2, Calls=2, SharedCache="TRUE"), workers=4, timeout=600, tag="Threads-mutant")
+        raise ToolError("the shared-cache variant of Threads.tla no longer violates Sequential: the model lost its ability to express the hazard")
+    except ToolError as e:
+        if "Invariant Inv is violated" not in str(e):
+            raise
+        res.notes["shared_cell_mutant"] = "TLC finds the torn-read counterexample (Invariant Inv violated), as required"
+    # (2) static footprint of the current working tree, judged by the trace specification
+    facts, nfiles = scan.scan_repo(C.REPO)
+    res.notes["files_scanned"] = nfiles
+    res.notes["footprint_facts"] = [dict(kind=f["kind"], file=f["file"], line=f["line"]) for f in facts]
+    run_pipeline(res, binary, "footprint", gen_lines=({"op": "footprint", "a": f} for f in facts), nshards=1)
+    # (3) auto traits of every public type (compile-time)
+    d = C.harness_dir()
+    r = subprocess.run(["cargo", "check", "--offline", "--profile", "chk", "--features", "assert-traits", "--target-dir", "target-traits"], cwd=d, capture_output=True, text=True)
+    if r.returncode != 0:
+        res.violation("C15-auto-trait-missing", {"op": "assert-traits", "a": {}, "r": {"compile_error": r.stderr[-1500:]}})
+    res.notes["auto_trait_assertions"] = "19 public types: Send + Sync + 'static (+ RefUnwindSafe, Copy for value types)"
+    # (4) N threads on shared zones: every thread must get the sequential result for every call; the sequential trace is validated
+    inp = os.path.join(C.OUT, "C15-threads.in")
+    with open(inp, "w") as f:
+        for e in gen_thread_sessions(rng, 12 if q else 120):
+            f.write(json.dumps(e, separators=(",", ":")) + "\n")
+    for nt in ((2, 16) if q else (2, 4, 16, 64)):
+        outp = os.path.join(C.OUT, f"C15-threads-{nt}.ndjson")
+        r = subprocess.run([binary, "threads", inp, outp, str(nt)], capture_output=True, text=True, timeout=3000)
+        if r.returncode != 0:
+            res.violation("C15-threaded-run-died", {"op": "threads", "a": {"n": nt}, "r": {"stderr": r.stderr[-800:]}})
+            continue
+        stats = json.loads(r.stdout.strip().splitlines()[-1])
+        res.drivers[f"threads-{nt}"] = stats["events"]
+        tr = C.run_trace(outp, nshards=8, min_events=200)
+        res.events += tr["events"]; res.trace_states += tr["states"]
+        for (idx, tag, line, zline, ztags) in tr["bad"]:
+            res.violation(tag, C.strip(json.loads(line)), dict(index=idx, zone_tags=ztags, threads=nt, context=C.strip(json.loads(zline)) if zline else None))
+        if not res.samples:
+            res.samples.append(C.strip(json.loads(open(outp).readline())))
+        os.remove(outp)
+    # (5) no dependence on the process environment: the same calls with TZ and other variables set must return the same
+    envin = os.path.join(C.OUT, "C15-env.in")
+    with open(envin, "w") as f:
+        for s in ["EST5EDT,M3.2.0,M11.1.0", "UTC0", "Europe/Paris", ":UTC", "localtime", "nonexistent"]:
+            f.write(json.dumps({"op": "posixtz", "a": {"s": C.B(s)}}) + "\n")
+        f.write(json.dumps({"op": "local", "a": {}}) + "\n")
+    outs = []
+    for env_extra in ({}, {"TZ": "ODD-13:37", "TZDIR": "/nonexistent", "LC_ALL": "tr_TR.UTF-8", "HOME": "/nonexistent"}):
+        env = {k: v for k, v in os.environ.items() if k not in ("TZ", "TZDIR")}
+        env.update(env_extra)
+        o = envin + f".{len(outs)}.out"
+        subprocess.run([binary, "run", envin, o], capture_output=True, text=True, env=env, timeout=600)
+        outs.append(open(o).read()); os.remove(o)
+    if outs[0] != outs[1]:
+        res.violation("C15-result-depends-on-environment", {"op": "env", "a": {"set": ["TZ", "TZDIR", "LC_ALL", "HOME"]}, "r": {"without": outs[0][:600], "with": outs[1][:600]}})
+    res.events += 14
+    os.remove(inp); os.remove(envin)
+    res.notes["explanation"] = ("Threads.tla: every interleaving of 3 threads x 2-3 calls of the faithful library gives sequential results and touches no shared cell "
+                                "(the shared-cache variant is required to fail). The premise 'no cell' is bound to the code by a token-level scan of src/ and Cargo.toml whose "
+                                "facts TLC judges against the allowed set, by compile-time auto-trait assertions, by running the deterministic workload on 2..64 threads "
+                                "sharing the same zones (each thread's result must equal the sequential, TLC-validated one) and by repeating the environment-facing calls "
+                                "with TZ/TZDIR/LC_ALL/HOME changed.")
+    res.notes["rule"] = "interleavings exhaustive in the model, sampled in the real code; the scan is syntactic"
+    return res.finish()
+
+
+def check_C19(tier, seed):
+    import subprocess, itertools
+    res = Result("C19", tier, seed, "exploration")
+    rng = random.Random(seed * 7919 + 19)
+    q = tier == "quick"
+    bins = {}
+    for feat in ("cfg-core", "cfg-alloc", "cfg-std"):
+        b, err = build_harness("chk", features=feat)
+        if b is None:
+            # a configuration that does not build is the violation
+            res.violation("C19-configuration-does-not-build", {"op": "build", "a": {"features": feat}, "r": {"compile_error": err[-1500:]}})
+        bins[feat] = b
+    # also the crate alone, the way a user builds it
+    for flags in (["--no-default-features"], ["--no-default-features", "--features", "alloc"], []):
+        r = subprocess.run(["cargo", "build", "--offline", "--target-dir", os.path.join(C.OUT, "c19-target")] + flags, cwd=C.REPO, capture_output=True, text=True)
+        if r.returncode != 0:
+            res.violation("C19-configuration-does-not-build", {"op": "build", "a": {"features": " ".join(flags)}, "r": {"compile_error": r.stderr[-1500:]}})
+    if any(b is None for b in bins.values()):
+        return res.finish()
+    # zones of real files, turned into constructor arguments by the std build (the other configurations cannot read files)
+    files = gens.select_files(rng, 14 if q else 120)
+    tin = os.path.join(C.OUT, "C19-files.in"); tout = os.path.join(C.OUT, "C19-files.out")
+    with open(tin, "w") as f:
+        for e in gens.gen_corpus_decode(rng, files):
+            f.write(json.dumps(e, separators=(",", ":")) + "\n")
+    C.run_harness(bins["cfg-std"], tin, tout)
+    corpus_zones = []
+    for l, rel in zip(open(tout), files):
+        e = json.loads(l)
+        if "ok" in e["r"]:
+            z = e["r"]["ok"]; z["via"] = "owned"
+            data = open(os.path.join(gens.CORPUS, rel), "rb").read()
+            corpus_zones.append((z, gens.parse_tzif_times(data)[0]))
+    os.remove(tin); os.remove(tout)
+
+    def workload():
+        n = 3000 if q else 40000
+        yield from gens.gen_gmtime(rng, n)
+        yield from gens.gen_timegm(rng, n)
+        yield from gens.gen_utccmp(rng, n // 3)
+        yield from gens.gen_nanos(rng, n)
+        yield from gens.gen_render(rng, n)
+        yield from gens.gen_c11(rng, n // 3)
+        for e in gens.gen_c14(rng, n):
+            yield e
+        for e in gens.gen_find_zones(rng, 60 if q else 1000, findn=True):
+            yield e
+        for e in gens.gen_c13(rng, n // 6):
+            yield e
+        for (z, times) in corpus_zones:
+            yield {"op": "zone", "a": z, "g": 1}
+            for t in rng.sample(times, min(len(times), 25)):
+                yield {"op": "lookup", "a": {"u": C.W(t + rng.choice([-1, 0, 1])), "via": "ref"}}
+                f = gens.fields_of_local(t + rng.choice([-7200, -3600, 0, 1800, 3600, 7200]), 0)
+                f["n"] = rng.randint(0, 4)
+                yield {"op": "findn", "a": f}
+                yield {"op": "fromnanos", "a": {"N": C.W(t * 10**9), "via": "zone", "type": {"off": 0, "dst": 0, "des": []}}}
+    inp = os.path.join(C.OUT, "C19-workload.in")
+    nev = 0
+    with open(inp, "w") as f:
+        for e in workload():
+            if e["op"] in ("find",):
+                e = {"op": "findn", "a": dict(e["a"], n=8)}
+            if e["op"] == "lookup":
+                e["a"]["via"] = "ref"
+            f.write(json.dumps(e, separators=(",", ":")) + "\n"); nev += 1
+    outs = {}
+    for feat, b in bins.items():
+        o = os.path.join(C.OUT, f"C19-{feat}.ndjson")
+        C.run_harness(b, inp, o)
+        outs[feat] = o
+    ref = open(outs["cfg-std"]).read().splitlines()
+    for feat in ("cfg-core", "cfg-alloc"):
+        other = open(outs[feat]).read().splitlines()
+        ndiff = 0
+        for i, (x, y) in enumerate(zip(ref, other)):
+            if x != y:
+                ndiff += 1
+                if ndiff <= 5:
+                    ex = json.loads(x); ey = json.loads(y)
+                    res.violation("C19-configurations-disagree", C.strip(ex), dict(index=i, configuration=feat, result_there=ey.get("r")))
+        if len(ref) != len(other):
+            res.violation("C19-configurations-disagree", {"op": "length", "a": {}, "r": {"std": len(ref), feat: len(other)}})
+        res.drivers[f"identical-{feat}-vs-std"] = len(ref) - ndiff
+    res.vectors = 0
+    # every configuration's recording is validated against the same specification (the no-alloc one in full)
+    for feat in (("cfg-core",) if q else ("cfg-core", "cfg-alloc", "cfg-std")):
+        tr = C.run_trace(outs[feat], nshards=16)
+        res.events += tr["events"]; res.trace_states += tr["states"]
+        for (idx, tag, line, zline, ztags) in tr["bad"]:
+            res.violation(tag, C.strip(json.loads(line)), dict(index=idx, zone_tags=ztags, configuration=feat, context=C.strip(json.loads(zline)) if zline else None))
+    res.samples.append(C.strip(json.loads(ref[0])))
+    for o in outs.values():
+        os.remove(o)
+    os.remove(inp)
+    res.notes["evaluations"] = nev * 3
+    res.notes["distinct_nontrivial"] = nev
+    res.notes["rule"] = ("the same deterministic workload (constructors, gmtime/timegm, nanoseconds, rendering, rules, zones incl. real tzdata zones passed as constructor arguments, "
+                         "lookups, buffer-based searches) is executed by three builds of the harness against tz-rs with features {}, {alloc}, {alloc,std}; the three recordings must be "
+                         "byte-identical and the no-alloc recording is validated event by event by TLC; distinct_nontrivial = number of workload events (each is a distinct call)")
+    return res.finish({"evaluations": nev * 3, "distinct_nontrivial": nev})
+
+
+def run_careful(res, binary, name, events, profile_tag, validate, timeout=1200):
+    """Run events with per-call allocation measurement, flushing after every event so that a hang or an abort of the process is
+    attributed to the event that was executing."""
+    import subprocess
+    inp = os.path.join(C.OUT, f"C07-{name}.in")
+    outp = os.path.join(C.OUT, f"C07-{name}-{profile_tag}.ndjson")
+    lines = [json.dumps(e, separators=(",", ":")) for e in events]
+    open(inp, "w").write("\n".join(lines) + "\n")
+    status = "ok"
+    try:
+        r = subprocess.run([binary, "run", inp, outp, "--mem", "--flush"], capture_output=True, text=True, timeout=timeout)
+        if r.returncode != 0:
+            status = f"process exited with status {r.returncode}: {r.stderr[-300:]}"
+    except subprocess.TimeoutExpired:
+        status = f"no response within {timeout}s"
+    done = open(outp).read().splitlines() if os.path.exists(outp) else []
+    if status != "ok":
+        culprit = json.loads(lines[len(done)]) if len(done) < len(lines) else {"op": "?", "a": {}}
+        res.violation("C07-abort-or-hang", dict(op=culprit.get("op"), a=culprit.get("a"), r={"process": status}), dict(profile=profile_tag, index=len(done)))
+    npanic = 0
+    for i, l in enumerate(done):
+        e = json.loads(l)
+        if '"panic"' in l and not validate:
+            rr = e["r"]
+            if "panic" in rr or "panic" in rr.get("res", {}) or "panic" in rr.get("full", {}):
+                npanic += 1
+                if npanic <= 5:
+                    res.violation("panic", C.strip(e), dict(profile=profile_tag, index=i))
+        if e["op"] in ("tzif", "tzstring"):
+            ln = len(e["a"].get("bytes") or e["a"].get("s") or [])
+            if e.get("mem", 0) > 64 * (ln + 200) + 4096:      # + the constant wrapper file of the footer paths
+                res.violation("C07-allocation-bound", C.strip(e) if ln < 300 else dict(op=e["op"], a={"len": ln}, r=e["r"]), dict(profile=profile_tag, peak_bytes=e["mem"], input_len=ln))
+    res.drivers[f"{name}-{profile_tag}"] = len(done)
+    if validate and done:
+        tr = C.run_trace(outp, nshards=16, min_events=300)
+        res.events += tr["events"]; res.trace_states += tr["states"]
+        for (idx, tag, line, zline, ztags) in tr["bad"]:
+            e = json.loads(line)
+            res.violation(tag, C.strip(e) if len(line) < 4000 else dict(op=e["op"], a={"len": len(line)}, r=e["r"] if len(json.dumps(e["r"])) < 2000 else "large"),
+                          dict(index=idx, zone_tags=ztags, profile=profile_tag, context=(C.strip(json.loads(zline)) if zline and len(zline) < 4000 else None)))
+    else:
+        res.events += len(done)
+    if not res.samples and done:
+        e = json.loads(done[0]); res.samples.append(C.strip(e) if len(done[0]) < 3000 else {"op": e["op"], "note": "large event"})
+    return outp, inp
+
+
+def check_C07(tier, seed):
+    res = Result("C07", tier, seed, "exploration")
+    rng = random.Random(seed * 7919 + 7)
+    q = tier == "quick"
+    bchk = need_binary(res, "chk")
+    brel, err = build_harness("rel")
+    if brel is None:
+        raise ToolError("release-profile harness build failed:\n" + err)
+    # structured hostile files generated from the TLA+ encoder: every truncation and single-byte corruption of small valid files
+    raw = os.path.join(C.OUT, "C07-vectors-raw.ndjson")
+    res.add_mc(run_mc("MC_TzFile", dict(EmitVec="TRUE", CMod=53 if q else 7, CRem=(seed + 1) % (53 if q else 7)), workers=C.NCPU, vec_out=raw, timeout=6000, xmx="12g"))
+    vec_events = [json.loads(l) for l in open(raw)]
+    os.remove(raw)
+    if q:
+        # quick: all truncations (they are few and each is a distinct cut point) and a seeded sample of the byte corruptions
+        lens = {}
+        keep = []
+        for e in vec_events:
+            lens.setdefault(len(e["a"]["bytes"]), []).append(e)
+        vec_events = rng.sample(vec_events, min(len(vec_events), 7000))
+    files = gens.select_files(rng, 40) if q else gens.corpus_files()
+    batches = {
+        "spec-files": vec_events,
+        "files": list(gens.gen_hostile_files(rng, files, 12 if q else 40)),
+        "strings": list(gens.gen_hostile_strings(rng, 4000 if q else 80000)),
+        "numbers": list(gens.gen_hostile_numbers(rng, 500 if q else 10000)),
+    }
+    total = 0
+    for name, evs in batches.items():
+        total += len(evs)
+        o1, inp = run_careful(res, bchk, name, evs, "chk", validate=True)
+        o2, _ = run_careful(res, brel, name, evs, "rel", validate=False)
+        # the two profiles must agree on every outcome (an overflow that only wraps silently in release shows up here)
+        if os.path.exists(o1) and os.path.exists(o2):
+            ndiff = 0
+            for i, (x, y) in enumerate(zip(open(o1), open(o2))):
+                ex, ey = json.loads(x), json.loads(y)
+                if ex.get("r") != ey.get("r"):
+                    ndiff += 1
+                    if ndiff <= 3:
+                        res.violation("C07-profiles-disagree", C.strip(ex) if len(x) < 4000 else dict(op=ex["op"], a={"len": len(x)}, r="large"), dict(index=i, release_result=ey.get("r") if len(y) < 4000 else "large"))
+        for p in (o1, o2, inp):
+            if os.path.exists(p):
+                os.remove(p)
+    res.notes["rule"] = ("hostile inputs: every truncation / single-byte corruption of TLA+-encoded files; structured and byte-level mutations of real tzdata files (header counts up to 2^32-1, "
+                         "extreme 64-bit times, splices, truncations); random and grammar-shaped byte strings incl. non-UTF-8 through both footer paths; zones, rules, lookups, searches, "
+                         "nanosecond counts, projections and renderings at i64/i32/i128 extremes. Each event runs under catch_unwind in a build with overflow checks and debug assertions and in a "
+                         "release build, with the peak allocation of the crate call measured and the process watched for aborts and hangs; TLC validates that every outcome is one the specification admits. "
+                         "distinct_nontrivial = number of generated events (all distinct inputs by construction of the generators, duplicates not removed)")
+    return res.finish({"evaluations": total * 2, "distinct_nontrivial": total})
+
+
+CHECKS = {"C07": check_C07, "C19": check_C19, "C15": check_C15, "C10": check_C10, "C20": check_C20, "C08": check_C08, "C09": check_C09, "C18": check_C18, "C04": check_C04, "C11": check_C11, "C01": check_C01, "C02": check_C02, "C16": check_C16, "C03": check_C03, "C12": check_C12, "C13": check_C13,
           "C05": lambda t, s: check_find("C05", t, s), "C06": lambda t, s: check_find("C06", t, s), "C17": lambda t, s: check_find("C17", t, s),
           "C14": check_C14}
 
